@@ -65,10 +65,22 @@ fn body(file_level_using: bool) -> (String, Vec<i32>, Vec<i32>, Vec<i32>) {
         (format!("        require(a > b, '{}');", s33), "RL"),
         (format!("        require(a > b, unicode\"{}\");", m32), "RL"),
         (format!("        require(a > b, unicode\"{}\");", m31), "R"),
+        // call sites and requires in every kind of statement position (one line each: a tag covers both patterns)
+        ("        try this.g(a) { total = a.add(1); require(a > 1, \"in try\"); } catch { total = a.sub(1); require(b > 1, \"in bare catch\"); }".into(), "SR"),
+        ("        try this.g(b) returns (uint256 r) { total = r.mul(2); } catch Error(string memory why) { total = a.div(3); require(bytes(why).length > 0, \"in named catch\"); } catch (bytes memory) { total = b.add(4); }".into(), "SR"),
+        ("        do { total = total.add(1); } while (total < a.sub(b));".into(), "S"),
+        ("        for (uint256 i = a.add(0); i < b.mul(2); i = i.add(1)) { require(i > 0, \"in for\"); }".into(), "SR"),
+        ("        unchecked { total = a.sub(b); require(total > 0, \"in unchecked\"); }".into(), "SR"),
+        ("        if (a.add(b) > 3) { require(a > 3, \"in if\"); } else if (a.mul(b) > 4) require(b > 4, \"in else\");".into(), "SR"),
+        ("        while (total > a.div(2)) { total = total.sub(1); }".into(), "S"),
+        ("        { uint256 inner = a.add(b); require(inner > 0, \"in block\"); }".into(), "SR"),
+        ("        emit Done(a.mul(b)); return;".into(), "S"),
         ("        assert(a > b);".into(), ""),
         ("        revert(\"plain revert with a string that is quite long indeed\");".into(), ""),
         ("    }".into(), ""),
         ("    function add(uint256 x, uint256 y) internal pure returns (uint256) { return x; }".into(), ""),
+        ("    function g(uint256 x) external pure returns (uint256) { return x; }".into(), ""),
+        ("    event Done(uint256 v);".into(), ""),
         ("}".into(), ""),
         // the file attaches SafeMath: call sites outside the attaching contract count too
         ("contract Sibling { function g(uint256 a, uint256 b) public pure returns (uint256) { return a.add(b); } }".into(), "S"),
